@@ -23,7 +23,9 @@ TRUSTED = [
     "RuleDBForest searches in extra_checks, not modelled",
 ]
 ASSUMPTIONS = [
-    "partial correctness (fuel) as for C03",
+    "termination/totality are proved for the MODEL (C11_never_out_of_fuel, C11_total); the real extractor is tied to it by the "
+    "correspondence only (a looping change of forest.py shows up as a case timeout, never as agreement: "
+    "C11_harness_never_out_of_fuel)",
     "closedness and one-rule-per-class of the minimal set are NOT proved (energy-game determinacy); they are "
     "decided per instance by the oracle, and a failing self-check (AssertionError) is reported as a violation",
 ]
@@ -222,15 +224,22 @@ LEVEL_TEXT = (
     "have pairwise distinct left-hand sides (C11_one_rule_per_class: the assertion in check() cannot fail). The last "
     "one follows from C11_minimal_one_rule_per_class, proved for ANY key list (Forest/Positional.v, memoryless "
     "determinacy of the derivability game: of two keys for one class one is redundant, C11_positional). "
-    "The model is tied to forest.py by comparing needed_rules as a list."
+    "With C03's termination theorem the classical step disappears: C11_minimal_one_rule_per_class_total and "
+    "C11_one_rule_per_class_total are closed under the global context. TOTAL: every productivity test runs a fresh "
+    "table-method model with the fuel proved sufficient by C03's termination theorem, so the model never runs out of fuel "
+    "(C11_never_out_of_fuel), its fuel argument is irrelevant (C11_fuel_irrelevant), and whenever the start class pumps it "
+    "returns a rule set - neither OutOfFuel nor 'Not pumping after adding all rules' (C11_total); C11_total_correct states "
+    "subset/productive/minimal/closed with no fuel and no 'the run returned' hypothesis (C11_closed_total discharges the "
+    "run that check() performs). The model is tied to forest.py by comparing needed_rules as a list."
 )
 LEVEL_NOTE = (
     "C11_one_rule_per_class, C11_minimal_one_rule_per_class and C11_positional use the standard-library axiom "
     "Classical_Prop.classic, only to compare the (possibly infinite) number of terms of one class in two key lists; "
     "the core (Positional.split_derivable) is axiom free, and so are C11_minimal_one_rule_per_class_valued and "
-    "C11_one_rule_per_class_runs, which take that comparison as a hypothesis (a terminating table-method run on the "
-    "result with one key removed; termination of the table method would discharge it). C11_closed still takes the "
-    "table-method run of check() as a hypothesis. C11_one_rule_per_class_partial (soundness of the code's own "
+    "C11_one_rule_per_class_runs, which take that comparison as a hypothesis, and - using C03 termination - the _total "
+    "versions of the same statements. C11_closed takes the table-method run of check() as a hypothesis; C11_closed_total "
+    "does not. C11_one_rule_per_class_partial (soundness of the code's own "
     "check()) is kept. Closedness and one-rule-per-class are also decided per instance by the oracle. _find_rule is "
-    "exercised on real searches only. Partial correctness (fuel)."
+    "exercised on real searches only. Termination is a theorem about the model (C03 layer A table method inside the "
+    "extractor model); the real code's termination follows only through the correspondence."
 )
